@@ -72,7 +72,20 @@ def pil_world(eng, st):
                    ("getchannel", getchannel), ("close", close), ("seek", seek)):
         eng.methods[("PIL.Image", n_)] = f_
     eng.genv["Image"] = Namespace("Image", {"new": Fn(new), "Resampling": Namespace("Resampling", {"BOX": "BOX"})})
+    # img.info: the transparency entry of a paletted image is absent, a palette index (0 is a valid index) or a table of alpha values
+    info = st.new("PIL.info", {})
+
+    def info_get(e, s, recv, a, k):
+        if a[0] != "transparency":
+            raise Unsupported(f"img.info[{a[0]!r}]")
+        dflt = a[1] if len(a) > 1 else None
+        idx = e.sym_int("transparent_palette_index")
+        s2 = e.fork(s, idx >= 0)
+        return [(dflt, s), (idx, s2), (Rec("bytes", {"what": "tRNS table"}), s)]
+    eng.methods[("PIL.info", "get")] = info_get
+    eng.attrs[("PIL.Image", "info")] = lambda e, s, v: [(info, s)]
     eng.closed_classes.add("PIL.Image")
+    eng.closed_only["PIL.Image"] = {"filename", "fp", "format"}
     # list(pixeldata) keeps the data term; [255] * n is an all-opaque alpha list
     eng.genv["list"] = Fn(lambda e, s, a, k: [(a[0], s)] if isinstance(a[0], Rec) else __import__("pyvc.engine", fromlist=["BUILTINS"]).BUILTINS["list"](e, s, a, k))
     eng.list_repeat_hook = lambda e, s, items, n: [(Rec("pixeldata", {"val": T("const", items[0], n)}), s)]
